@@ -228,6 +228,82 @@ func genC10(tier, out string, sum *Summary) {
 			}
 		}
 	}
+	// runs of prefix operators in front of selectors: each operator takes what its own binding power lets it take,
+	// whatever stands in front of it ("!" stops before ".", ".*", "[?", "[]"; a sign takes every selector)
+	{
+		type post struct {
+			text string
+			hi   bool // binds tighter than "!"
+		}
+		seqs := [][]post{{{".a", false}}, {{".b", false}}, {{".*", false}}, {{"[?@]", false}}, {{"[]", false}}, {{"[0]", true}}, {{"[0:1]", true}}, {{"[-1]", true}}, {{".a", false}, {".b", false}}, {{"[0]", true}, {".a", false}}, {{".b", false}, {"[0]", true}}, {{"[0]", true}, {"[0]", true}}}
+		runs := [][]string{{"!", "-"}, {"!", "+"}, {"!", "!", "-"}, {"-", "!"}, {"+", "!"}, {"!", "-", "!"}, {"-", "-"}, {"-", "+"}, {"+", "-"}, {"!", "-", "-"}, {"-", "!", "-"}, {"!", "!", "!"}, {"-", "!", "!"}, {"!", "+", "!", "-"}}
+		for _, x := range []string{"a", "b", "d", "@", "(a)", "[a, d]", "not_null(a)", "`[[1], 2]`", "{a: a, b: b}"} {
+			for _, ps := range seqs {
+				for _, run := range runs {
+					pos := 0
+					var build func(run []string, power int) string
+					build = func(run []string, power int) string {
+						var t string
+						if len(run) == 0 {
+							t = x
+						} else {
+							pu := 12
+							if run[0] != "!" {
+								pu = 7
+							}
+							t = run[0] + " (" + build(run[1:], pu) + ")"
+						}
+						for pos < len(ps) {
+							pw := 10
+							if ps[pos].hi {
+								pw = 20
+							}
+							if pw <= power {
+								break
+							}
+							t = "(" + t + ")" + ps[pos].text
+							pos++
+						}
+						return t
+					}
+					explicit := build(run, 0)
+					flat := strings.Join(run, "") + x
+					for _, q := range ps {
+						flat += q.text
+					}
+					sum.count("prefix-runs")
+					relate(flat, explicit, nil)
+				}
+			}
+		}
+	}
+	// an operand that starts with a literal is an operand like any other: what follows it groups by the table
+	for _, o1 := range binSpellings {
+		for _, o2 := range binSpellings {
+			if o1.text != o1.ascii || o2.text != o2.ascii {
+				continue
+			}
+			for k, opd := range [][3]string{{"`7`", "b", "c"}, {"a", "`2`", "c"}, {"a", "b", "`3`"}, {"'x'", "b", "c"}, {"a", "`[1, 3]`[1]", "c"}, {"a", "`{\"k\": 2}`.k", "c"}, {"a", "`2`", "`3`"}} {
+				flat := opd[0] + " " + o1.text + " " + opd[1] + " " + o2.text + " " + opd[2]
+				paren := "(" + opd[0] + " " + o1.text + " " + opd[1] + ") " + o2.text + " " + opd[2]
+				if o1.level < o2.level {
+					paren = opd[0] + " " + o1.text + " (" + opd[1] + " " + o2.text + " " + opd[2] + ")"
+				}
+				if tier != "thorough" && k >= 3 && (o1.level != 5 && o2.level != 5) {
+					continue
+				}
+				sum.count("literal-operands")
+				relate(flat, paren, nil)
+			}
+		}
+		// a selector after a literal belongs to the literal, on either side of every operator
+		if o1.text == o1.ascii {
+			relate("a "+o1.text+" `[1, 3]`[1]", "a "+o1.text+" (`[1, 3]`[1])", nil)
+			relate("`[1, 3]`[1] "+o1.text+" a", "(`[1, 3]`[1]) "+o1.text+" a", nil)
+			relate("b "+o1.text+" `{\"k\": 2}`.k", "b "+o1.text+" (`{\"k\": 2}`.k)", nil)
+			relate("a "+o1.text+" 'xy'[0:1]", "a "+o1.text+" ('xy'[0:1])", nil)
+		}
+	}
 	// selectors and projections bind tighter than every binary operator
 	for _, o := range binSpellings {
 		if o.text != o.ascii {
